@@ -344,7 +344,7 @@ pub fn load_known() -> Known {
 
 fn deadline_for(tier: Tier) -> Duration {
     let secs = std::env::var("VCHECK_DEADLINE_S").ok().and_then(|s| s.parse().ok()).unwrap_or(match tier {
-        Tier::Quick => 900u64,
+        Tier::Quick => 420u64,
         Tier::Thorough => 4 * 3600,
     });
     Duration::from_secs(secs)
@@ -500,6 +500,18 @@ pub fn parent_main(engine: &Engine, tier: Tier) -> i32 {
             println!("VIOLATION property={} replay={}", engine.prop, path.display());
             println!("  what: {}", v.what);
             println!("  case: {}", v.key);
+        }
+    }
+    if unlisted.len() > 5 {
+        // group by the shape of the complaint so that families are visible at a glance
+        let mut classes: BTreeMap<String, (u64, String)> = BTreeMap::new();
+        for v in &unlisted {
+            let cls: String = v.what.chars().map(|c| if c.is_ascii_digit() { '#' } else { c }).take(70).collect();
+            let e = classes.entry(cls).or_insert((0, v.key.clone()));
+            e.0 += 1;
+        }
+        for (c, (n, ex)) in &classes {
+            println!("  class x{n}: {c} ... e.g. {ex}");
         }
     }
     if unlisted.len() > 25 {
